@@ -7,11 +7,12 @@ import core
 import impl
 from core import Scratch, cN, cbool, clist
 
-KINDS = ["clean", "trig", "fixable", "perr", "terr", "decode"]
+KINDS = ["clean", "trig", "fixable", "perr", "terr", "supp", "decode"]
 CONTENT = {
     "clean": b"# a\n",
     "trig": b"# a\n\na <b>x</b>\n",
     "fixable": b"#  a\n",
+    "supp": b"# a\n\n<!-- pyml disable-next-line no-inline-html-->\na <b>x</b>\n",      # a failure that a pragma suppresses: nothing is reported for this file
     "perr": b"# a\n\nPLUGINFAIL\n",
     "terr": b"---\ntest: assert\n---\n",
     "decode": b"\xff\xfe# a\n",
@@ -123,7 +124,7 @@ def coq_events(evs):
 
 
 def coq_outcome(k, mode, nfail):
-    if k == "clean":
+    if k in ("clean", "supp"):
         return "Done 0%N false"
     if k == "trig":
         return f"Done {cN(nfail['trig'])} false"
@@ -228,7 +229,7 @@ def run(ctx):
             ctx.broke(f"probe document '{k}' no longer triggers a failure")
     # (2) outcome vectors
     maxlen = 3
-    kinds5 = KINDS[:5]
+    kinds5 = KINDS[:6]
     vecs = [v for n in range(1, maxlen + 1) for v in itertools.product(kinds5, repeat=n)]
     vecs += [v for n in range(1, 3) for v in itertools.product(KINDS, repeat=n) if "decode" in v]
     variants = list(SCHEMES) if ctx.tier == "thorough" else ["implicit", "arg-minimal", "set-minimal", "file-minimal", "arg-beats-set"]
@@ -249,7 +250,7 @@ def run(ctx):
         v, mode, coe, var = case
         asked = SCHEMES[var][1]
         ctx.count(1, f"{mode}/{'coe' if coe else 'stop'}/len{len(v)}")
-        if any(k != "clean" for k in v):
+        if any(k not in ("clean",) for k in v):
             ctx.seen([v, mode, coe, asked])
         cat = spec_category(v, mode, coe)
         want = table[cat][asked]
@@ -310,7 +311,7 @@ def run(ctx):
     ]
     return ctx.finish(
         level="proof",
-        rule="outcome vectors of <=3 files over {clean,trig,fixable,plugin-error,parser-error} (+undecodable, <=2 files) x {scan,fix} x continue-on-error x scheme selection variants; plus every non-scanning path to exit; non-trivial = at least one non-clean file or a non-scanning path; distinct by (vector,mode,flag,scheme)",
+        rule="outcome vectors of <=3 files over {clean,trig,fixable,plugin-error,parser-error,pragma-suppressed} (+undecodable, <=2 files) x {scan,fix} x continue-on-error x scheme selection variants; plus every non-scanning path to exit; non-trivial = at least one non-clean file or a non-scanning path; distinct by (vector,mode,flag,scheme)",
         assumptions=["per-file outcomes are independent of the other files (C13)",
                      "the Python-side oracle spec_category mirrors the documented precedence; the Coq theorem category_precedence proves the model equal to the same precedence"],
         extra_cov={"exhaustive": ctx.tier == "thorough"},
